@@ -140,7 +140,9 @@ class AndersonCD(BaseSolver):
 
             # re init AA at every iter to consider ws
             accelerator = AndersonAcceleration(K=5)
-            w_acc[:] = 0.
+            # coefficients outside the working set are not updated in the inner loop:
+            # the extrapolated point must keep them (they may be non-zero)
+            w_acc[:] = w
             # ws to be used in AndersonAcceleration
             ws_intercept = np.append(ws, -1) if self.fit_intercept else ws
 
